@@ -490,11 +490,19 @@ class FlowTranslator(Translator):
       (closure) or, for module functions / methods, to unknown module-level objects;
     * `continue`, `return` inside a loop of an inlined callee, recursion: untranslatable."""
 
-    def __init__(self, fdef, param_signs, assume_true=(), assume_false=(), callees=None, ret_arity=None, split=None, records=None, peel=()):
+    def __init__(self, fdef, param_signs, assume_true=(), assume_false=(), callees=None, ret_arity=None, split=None, records=None, peel=(), msplit=None):
         super().__init__(fdef, param_signs, assume_true, assume_false)
         # peel = loop headers (source text `<target> in <iter>`) of `for` loops assumed to run AT LEAST ONCE in the analysed configuration (e.g. n_iter_max >= 1):
         # translated as block { head; body; loop { head; body } } - a break in the first copy leaves the block, exactly as it would leave the loop
         self.peel = {h: 0 for h in peel}
+        # msplit (round 7): per-mode analysis of a list that holds one array per mode when the guard is IMPLICIT (decided inside an inlined callee from `order=<mode>`):
+        #   {"lists": {list name: (index variable names)}, "declared_true": tests that hold / "declared_false": tests that fail while the current mode is DECLARED,
+        #    "undeclared_false": tests that fail while it is not}.  X is modelled by X@D (arrays of the declared modes) and X@U; a `for <index var> ...` loop whose body
+        #   accesses X[<index var>] is translated once per case (choice of the two bodies): in the declared case X[iv] is X@D and the tests are fixed accordingly.
+        self.msplit = msplit or None
+        self.ms_used = {}
+        self.mctx = None                         # (index variable, "D" | "U") while translating one case of a mode loop
+        self.split_rets = set()
         # records = {variable: (field names)}: a CPTensor-like object variable is modelled by one bag per component; x.<field>, x[k] read / write the component,
         # an assignment from a tuple-like value is positional, from anything else every component receives a sub-bag of the value
         self.records = dict(records or {})
@@ -540,6 +548,38 @@ class FlowTranslator(Translator):
             return "D" if self.guard_ctx[g] else "U"
         return None
 
+    # ---- msplit helpers
+    def is_ms(self, name):
+        return bool(self.msplit) and name in self.msplit["lists"]
+
+    def ms_ids(self, name):
+        r = self.resolve(name)
+        return self.vid(r + "@D", "all"), self.vid(r + "@U", "all")
+
+    def ms_part(self, sub_node):
+        """'D' / 'U' when X[i] is indexed by the index variable of the current case, else None"""
+        if self.mctx and isinstance(sub_node.slice, ast.Name) and sub_node.slice.id == self.mctx[0] \
+                and sub_node.slice.id in self.msplit["lists"][sub_node.value.id]:
+            return self.mctx[1]
+        return None
+
+    def ms_value(self, node):
+        """(sxD, sxU) when the expression denotes a per-mode list: a split list name, list(S) / S.copy(), an inlined result known to be split"""
+        if isinstance(node, ast.Name) and self.is_ms(node.id):
+            d, u = self.ms_ids(node.id)
+            return f"(XVar {d}%nat)", f"(XVar {u}%nat)"
+        if isinstance(node, ast.Call) and _dotted(node.func).split(".")[-1] in ("list", "tuple", "copy") and len(node.args) == 1 and not node.keywords:
+            return self.ms_value(node.args[0])
+        return None
+
+    def ms_with_part(self, part, build):
+        """translate with every read of a split list X (whole or X[c]) restricted to one part"""
+        saved, self.ms_force = getattr(self, "ms_force", None), part
+        try:
+            return build()
+        finally:
+            self.ms_force = saved
+
     def rec_fields(self, name):
         """the component names when `name` (in the current scope) is a record variable, else None.  Configuration keys: "x" (top level) or "callee.x";
         a parameter bound to a record argument at an inlined call is a record too"""
@@ -579,6 +619,16 @@ class FlowTranslator(Translator):
                 for i in reversed(self.rec_ids(e.id)):
                     r = f"(XPair (XVar {i}%nat) {r})"
                 return r
+        if self.msplit and isinstance(e, ast.Subscript) and isinstance(e.value, ast.Name) and self.is_ms(e.value.id) and e.value.id not in sub:
+            d, u = self.ms_ids(e.value.id)
+            mf = getattr(self, "ms_force", None)
+            part = self.ms_part(e) or (mf[0] if mf and ast.unparse(e.slice) == mf[1] else None)
+            return f"(XSub (XVar {d}%nat))" if part == "D" else f"(XSub (XVar {u}%nat))" if part == "U" else f"(XSub (XPair (XVar {d}%nat) (XVar {u}%nat)))"
+        if self.msplit and isinstance(e, ast.Name) and self.is_ms(e.id) and e.id not in sub:
+            d, u = self.ms_ids(e.id)
+            if self.in_return and not self.scopes:
+                return f"(XVar {d}%nat)"               # the property speaks about the declared modes
+            return f"(XPair (XVar {d}%nat) (XVar {u}%nat))"
         if not self.scopes and isinstance(e, ast.Subscript) and isinstance(e.value, ast.Name) and e.value.id in self.split and e.value.id not in sub:
             d, u = self.split_ids(e.value.id)
             part = self.split_part(e)
@@ -624,6 +674,10 @@ class FlowTranslator(Translator):
             bind[k.arg] = k.value
         defaults = dict(zip([p.arg for p in a.args][len(a.args) - len(a.defaults):], a.defaults))
         defaults.update({p.arg: d for p, d in zip(a.kwonlyargs, a.kw_defaults) if d is not None})
+        if self.msplit and self.mctx and "order" in params:
+            o = bind.get("order")
+            if not (isinstance(o, ast.Name) and (o.id == self.mctx[0] or (o.id == "order" and self.scopes))):
+                raise Untranslatable(f"inlined callee {short}: `order` is not the index variable of the current mode")
         self.ninline += 1
         prefix = f"{short}${self.ninline}$"
         cmds = []
@@ -725,7 +779,7 @@ class FlowTranslator(Translator):
             n = len(target.elts)
             tnames = {m.id for t in target.elts for m in ast.walk(t) if isinstance(m, ast.Name)}
             if isinstance(value_node, ast.Call) and id(value_node) in self.inlined_results and len(self.inlined_results[id(value_node)]) == n:
-                comps = [(f"(XVar {self.vid(r, 'all')}%nat)", None) for r in self.inlined_results[id(value_node)]]
+                comps = [(f"(XVar {self.vid(r, 'all')}%nat)", ("msret", r) if r in self.split_rets else None) for r in self.inlined_results[id(value_node)]]
             else:
                 el = self.tuple_elts(value_node, self.def_env) if value_node is not None else None
                 if el and len(el) == n and not (tnames & {m.id for x in el for m in ast.walk(x) if isinstance(m, ast.Name)}):
@@ -733,6 +787,29 @@ class FlowTranslator(Translator):
             if comps is not None:
                 return ("seq", [self.fassign(t, sx, node) for t, (sx, node) in zip(target.elts, comps)])
             return ("seq", [self.fassign(t, f"(XSub {value_sx})", value_node) for t in target.elts])
+        if self.msplit and isinstance(target, ast.Name) and self.is_ms(target.id):
+            d, u = self.ms_ids(target.id)
+            if isinstance(value_node, tuple) and value_node[0] == "msret":         # a per-mode list returned by an inlined callee
+                r = value_node[1]
+                return ("seq", [("assign", [d], f"(XVar {self.vid(r + '@D', 'all')}%nat)"), ("assign", [u], f"(XVar {self.vid(r + '@U', 'all')}%nat)")])
+            mv = self.ms_value(value_node) if isinstance(value_node, ast.AST) else None
+            if mv is not None:
+                return ("seq", [("assign", [d], mv[0]), ("assign", [u], mv[1])])
+            return ("seq", [("assign", [d], value_sx), ("assign", [u], value_sx)])
+        if isinstance(value_node, tuple):
+            raise Untranslatable("a per-mode list returned by an inlined callee is assigned to a name that is not declared as a per-mode list")
+        if self.msplit and isinstance(target, ast.Subscript) and isinstance(target.value, ast.Name) and self.is_ms(target.value.id):
+            d, u = self.ms_ids(target.value.id)
+            part = self.ms_part(target)
+            if part is not None:
+                return ("aupdate_id", d if part == "D" else u, value_sx)
+            if isinstance(value_node, ast.AST):
+                # X[c] = E(X[c]) for an index that is not the case's index variable: the element lies in exactly one part and is computed from the reads restricted to that part
+                src_ = ast.unparse(target.slice)
+                vd = self.ms_with_part(("D", src_), lambda: self.tx(value_node))
+                vu = self.ms_with_part(("U", src_), lambda: self.tx(value_node))
+                return ("seq", [("aupdate_id", d, vd), ("aupdate_id", u, vu)])
+            return ("seq", [("aupdate_id", d, value_sx), ("aupdate_id", u, value_sx)])
         if self.records or self.rrecords:
             rf = self.rec_field(target)
             if rf is not None:
@@ -852,6 +929,84 @@ class FlowTranslator(Translator):
         head = ("assign", [self.nid(i)], "XNonneg")
         return ("seq", [("assign", [z], "XNonneg"), ("loop", ("seq", [head, step])), ("assign", [self.nid(Y)], f"(XSub (XVar {z}%nat))")])
 
+    def declared_loop(self, s):
+        """for iv in <the declared modes>: Y[iv] = E(Y[iv]) for a per-mode list Y: every array of a declared mode is REPLACED by E of itself (the others are untouched).
+        <the declared modes> = one of msplit["declared_iters"] (source text), possibly through straight-line definitions whose tests are fixed by the assumptions."""
+        it = s.iter
+        seen = 0
+        while isinstance(it, ast.Name) and ast.unparse(it) not in self.msplit["declared_iters"] and it.id in self.def_env and seen < 5:
+            it = self.def_env[it.id]; seen += 1
+            while isinstance(it, ast.IfExp) and (ast.unparse(it.test) in self.assume or ast.unparse(it.test) in self.assume_f):
+                it = it.body if ast.unparse(it.test) in self.assume else it.orelse
+        if ast.unparse(it) not in self.msplit["declared_iters"]:
+            return None
+        if s.orelse or len(s.body) != 1 or not isinstance(s.body[0], ast.Assign) or len(s.body[0].targets) != 1:
+            return None
+        a, iv = s.body[0], s.target.id
+        t = a.targets[0]
+        if not (isinstance(t, ast.Subscript) and isinstance(t.value, ast.Name) and self.is_ms(t.value.id) and isinstance(t.slice, ast.Name) and t.slice.id == iv):
+            return None
+        Y = t.value.id
+        reads_ok = {id(n.value) for n in ast.walk(a.value) if isinstance(n, ast.Subscript) and isinstance(n.value, ast.Name) and n.value.id == Y
+                    and isinstance(n.slice, ast.Name) and n.slice.id == iv}
+        if any(isinstance(n, ast.Name) and n.id == Y and id(n) not in reads_ok for n in ast.walk(a.value)):
+            return None
+        self.ms_used["declared_iters"] = self.ms_used.get("declared_iters", 0) + 1
+        d, u = self.ms_ids(Y)
+        self.nmap = getattr(self, "nmap", 0) + 1
+        z = self.vid(self.resolve(Y) + f"$map{self.nmap}@D", "all")
+        self.loop_depth += 1
+        self.mctx = (iv, "D")
+        saved_lists = self.msplit["lists"]
+        self.msplit = dict(self.msplit, lists=dict(saved_lists, **{Y: tuple(set(saved_lists[Y]) | {iv})}))
+        try:
+            step = self.with_prologue(lambda: ("aupdate_id", z, self.tx(a.value)))
+        finally:
+            self.mctx = None
+            self.msplit = dict(self.msplit, lists=saved_lists)
+        self.loop_depth -= 1
+        head = ("assign", [self.nid(iv)], "XNonneg")
+        return ("seq", [("assign", [z], "XNonneg"), ("loop", ("seq", [head, step])), ("assign", [d], f"(XSub (XVar {z}%nat))")])
+
+    def mode_loop(self, s, iv):
+        """for iv in ...: body accessing X[iv] of a per-mode list X -> one translation of the body per case (the current mode is declared / is not).
+        When the loop is `for iv in <all modes>: X[iv] = E(X[iv])` every array is REPLACED (strong update through an accumulator per part)."""
+        def build():
+            return self.fassign(s.target, f"(XSub {self.tx(s.iter)})", None)
+        head = self.with_prologue(build)
+        env = self.child_env(s)
+        a = s.body[0] if len(s.body) == 1 and isinstance(s.body[0], ast.Assign) and len(s.body[0].targets) == 1 else None
+        t = a.targets[0] if a is not None else None
+        is_map = (t is not None and isinstance(t, ast.Subscript) and isinstance(t.value, ast.Name) and self.is_ms(t.value.id) and isinstance(t.slice, ast.Name)
+                  and t.slice.id == iv and self.covers_all(s.iter, t.value.id))
+        if is_map:
+            Y = t.value.id
+            reads_ok = {id(n.value) for n in ast.walk(a.value) if isinstance(n, ast.Subscript) and isinstance(n.value, ast.Name) and n.value.id == Y
+                        and isinstance(n.slice, ast.Name) and n.slice.id == iv}
+            if any(isinstance(n, ast.Name) and n.id == Y and id(n) not in reads_ok for n in ast.walk(a.value)):
+                is_map = False
+        self.loop_depth += 1
+        bodies = {}
+        for part in ("D", "U"):
+            self.mctx = (iv, part)
+            try:
+                if is_map:
+                    self.nmap = getattr(self, "nmap", 0) + 1
+                    z = self.vid(self.resolve(t.value.id) + f"$map{self.nmap}@" + part, "all")
+                    bodies[part] = (z, self.with_prologue(lambda: ("aupdate_id", z, self.tx(a.value))))
+                else:
+                    bodies[part] = (None, self.fblock(s.body, env))
+            finally:
+                self.mctx = None
+        self.loop_depth -= 1
+        loop = ("loop", ("seq", [head, ("if", bodies["D"][1], bodies["U"][1])]))
+        if not is_map:
+            return loop
+        d, u = self.ms_ids(t.value.id)
+        zd, zu = bodies["D"][0], bodies["U"][0]
+        return ("seq", [("assign", [zd], "XNonneg"), ("assign", [zu], "XNonneg"), loop,
+                        ("assign", [d], f"(XSub (XVar {zd}%nat))"), ("assign", [u], f"(XSub (XVar {zu}%nat))")])
+
     def partial(self, c):
         k = c[0]
         if k == "seq":
@@ -883,6 +1038,18 @@ class FlowTranslator(Translator):
                 return self.fassign(s.target, v, None)
             return self.with_prologue(build)
         if isinstance(s, ast.For):
+            if self.msplit and self.mctx is None and isinstance(s.target, ast.Name) and self.msplit.get("declared_iters"):
+                dl = self.declared_loop(s)
+                if dl is not None:
+                    return dl
+            if self.msplit and self.mctx is None and isinstance(s.target, ast.Name):
+                iv = s.target.id
+                hit = [n for n in ast.walk(s) if isinstance(n, ast.Subscript) and isinstance(n.value, ast.Name) and self.is_ms(n.value.id)
+                       and iv in self.msplit["lists"][n.value.id] and isinstance(n.slice, ast.Name) and n.slice.id == iv]
+                if hit:
+                    if s.orelse or iv in _assigned_names(ast.Module(body=s.body, type_ignores=[])):
+                        raise Untranslatable("mode loop with else / with an assignment to its index variable")
+                    return self.mode_loop(s, iv)
             m = self.map_loop(s)
             if m is not None:
                 return m
@@ -912,9 +1079,16 @@ class FlowTranslator(Translator):
             return ("seq", [loop, ("if", self.fblock(s.orelse, env), ("skip",))]) if s.orelse else loop
         if isinstance(s, ast.If):
             src = ast.unparse(s.test)
-            if src in self.assume or src in self.assume_f:      # spliced into the current block (shares its def_env)
-                taken = s.body if src in self.assume else s.orelse
-                (self.assume if src in self.assume else self.assume_f)[src] += 1
+            ms_true = ms_false = False
+            if self.msplit and self.mctx:
+                ms_true = self.mctx[1] == "D" and src in self.msplit.get("declared_true", ())
+                ms_false = (self.mctx[1] == "D" and src in self.msplit.get("declared_false", ())) or (self.mctx[1] == "U" and src in self.msplit.get("undeclared_false", ()))
+                if ms_true or ms_false:
+                    self.ms_used[src] = self.ms_used.get(src, 0) + 1
+            if src in self.assume or src in self.assume_f or ms_true or ms_false:      # spliced into the current block (shares its def_env)
+                taken = s.body if (src in self.assume or ms_true) else s.orelse
+                if src in self.assume or src in self.assume_f:
+                    (self.assume if src in self.assume else self.assume_f)[src] += 1
                 out = []
                 for st in taken:
                     out.append(self.fstmt(st))
@@ -960,7 +1134,14 @@ class FlowTranslator(Translator):
                     elif arity > 1:
                         if not el or len(el) != arity:
                             raise Untranslatable("return arity at line " + str(getattr(s, "lineno", "?")))
-                        cs = [("assign", [self.vid(n, "all")], self.tx(x)) for n, x in zip(names, el)]
+                        cs = []
+                        for n, x in zip(names, el):
+                            mv = self.ms_value(x) if self.msplit else None
+                            if mv is not None:          # a per-mode list is returned: the result variable is split as well
+                                self.split_rets.add(n)
+                                cs += [("assign", [self.vid(n + "@D", "all")], mv[0]), ("assign", [self.vid(n + "@U", "all")], mv[1])]
+                            else:
+                                cs.append(("assign", [self.vid(n, "all")], self.tx(x)))
                     elif isinstance(v, ast.Tuple) and v.elts:
                         cs = [("assign", [self.vid(names[0], "all")], self.tx(v.elts[0]))]      # mixed arities: the decomposition comes first
                     else:
@@ -979,7 +1160,7 @@ class FlowTranslator(Translator):
                     out_ = ("return", f"(XPair {self.tx(w_)} {self.tx(f_)})")
                     self.in_return = False
                     return out_
-                if self.split and isinstance(r, ast.Call) and _dotted(r.func).split(".")[-1] in self.TUPLE_CTORS:
+                if (self.split or self.msplit) and isinstance(r, ast.Call) and _dotted(r.func).split(".")[-1] in self.TUPLE_CTORS:
                     v = r                               # CPTensor((weights, X)) bound to a name: the returned X is X@D
                 out_ = ("return", self.tx(v))
                 self.in_return = False
@@ -992,6 +1173,10 @@ class FlowTranslator(Translator):
                     b = c.func.value
                     while isinstance(b, (ast.Subscript, ast.Attribute)):
                         b = b.value
+                    if self.msplit and isinstance(b, ast.Name) and self.is_ms(b.id):
+                        d, u = self.ms_ids(b.id)
+                        v = self.tx(c.args[-1]) if (c.func.attr in ("append", "extend", "insert") and c.args) else "XAny"
+                        return ("seq", [("aupdate_id", d, v), ("aupdate_id", u, v)])
                     if isinstance(b, ast.Name) and c.func.attr in ("append", "extend", "insert") and c.args and isinstance(c.func.value, ast.Name):
                         for n in self.alias_names(c.args[-1]):
                             self.union(self.resolve(b.id), self.resolve(n))
@@ -1051,6 +1236,10 @@ class FlowTranslator(Translator):
                 raise Untranslatable("in-place / reflective call at line " + str(getattr(n, "lineno", "?")))
         tree = self.fblock(self.fdef.body)
         stale = [a for a, n in list(self.assume.items()) + list(self.assume_f.items()) + list(self.peel.items()) if n == 0]
+        if self.msplit:
+            stale += [t_ for k_ in ("declared_true", "declared_false", "undeclared_false") for t_ in self.msplit.get(k_, ()) if not self.ms_used.get(t_)]
+            if self.msplit.get("declared_iters") and not self.ms_used.get("declared_iters"):
+                stale.append("no loop over the declared modes (" + " / ".join(self.msplit["declared_iters"]) + ")")
         if stale:
             raise Untranslatable("assumed test(s) / loop header(s) not found in the source: " + "; ".join(stale))
         if not self.returns:
@@ -1101,6 +1290,8 @@ class FlowTranslator(Translator):
                 a0.append(self.param_signs.get(name, "SgAny"))
             elif "@" in name and name.split("@")[0] in self.params and name.split("@")[1] in (self.records.get(name.split("@")[0]) or ()):
                 a0.append(self.param_signs.get(name, "SgAny"))       # a component of a record parameter
+            elif self.msplit and "@" in name and name.split("@")[0] in self.params and name.split("@")[0] in self.msplit["lists"] and name.split("@")[1] in ("D", "U"):
+                a0.append(self.param_signs.get(name, "SgAny"))       # the declared / undeclared part of a per-mode list parameter
             elif i not in assigned:
                 a0.append("SgAny")                 # a module-level name / never assigned: nothing is known
             else:
@@ -1119,10 +1310,10 @@ def find_function(tree, fname, cls=None):
     raise Untranslatable(f"function {fname} not found")
 
 
-def translate_flow(source, fname, param_signs, assume_true=(), assume_false=(), callees=None, split=None, records=None, peel=()):
+def translate_flow(source, fname, param_signs, assume_true=(), assume_false=(), callees=None, split=None, records=None, peel=(), msplit=None, cls=None):
     """callees: {call name: (source text, function name, class name or None)} -> inlined"""
     tree = ast.parse(source)
     cs = {}
     for k, (src, fn, cls) in (callees or {}).items():
         cs[k] = (find_function(ast.parse(src), fn, cls), False)
-    return FlowTranslator(find_function(tree, fname), param_signs, assume_true, assume_false, cs, split=split, records=records, peel=peel).run()
+    return FlowTranslator(find_function(tree, fname, cls), param_signs, assume_true, assume_false, cs, split=split, records=records, peel=peel, msplit=msplit).run()
